@@ -251,7 +251,7 @@ func run(pl Plan) (res vfx.Result) {
 
 	// ---- run the script against the node and the model in lock step ----
 	curInc := uint32(1)
-	suspStart := start          // start of the current suspicion
+	suspStart := start // start of the current suspicion
 	confirmed := map[string]bool{accuser: true}
 	c := 0
 	deadline := suspStart + m.timeout(0) // model: instant at which the timer fires
